@@ -31,7 +31,9 @@ def snapshot(order):
         elif isinstance(n, Bernoulli):
             out.append(('bern', float(n.p)))
         elif isinstance(n, Categorical):
-            out.append(('cat', np.array(n.probabilities, dtype=np.float64)))
+            dense = np.zeros(int(max(n.categories)) + 1)
+            dense[np.asarray(n.categories, dtype=int)] = np.array(n.probabilities, dtype=np.float64)
+            out.append(('cat', dense))
         elif isinstance(n, Gaussian):
             out.append(('gauss', (float(n.mean), float(n.stddev))))
         elif isinstance(n, BinaryCLT):
@@ -136,9 +138,28 @@ def one_case(ctx, k):
     rs = np.random.RandomState(np_seed(ctx.sub_rng('net', k)))
     nv = int(rs.randint(2, 5))
     fam = [('bern',), ('bern', 'cat'), ('gauss',), ('bern', 'gauss'), ('bern',)][k % 5]
-    root = S.rand_spn(rs, list(range(nv)), depth=int(rs.randint(1, 4)), kinds=fam, share=float(rs.choice([0.0, 0.4])), clt=(k % 5 == 4), same_categories={})
+    vk, cats = {}, {}
+    root = S.rand_spn(rs, list(range(nv)), depth=int(rs.randint(1, 5)), kinds=fam, share=float(rs.choice([0.0, 0.4, 0.8])), clt=(k % 5 == 4), var_kind=vk, same_categories=cats)
     if not getattr(root, 'children', None):
         return
+    if k % 3 == 0:
+        # a sub-circuit shared by parents at DIFFERENT depths: root -> X and root -> sum -> sum -> X
+        X = root.children[0] if isinstance(root, Sum) else root
+        inner = Sum(scope=list(X.scope), children=[X, S.rand_spn(rs, [int(v) for v in X.scope], 1, fam, 0.0, None, False, vk, cats)], weights=np.array([0.3, 0.7], dtype=np.float32))
+        mid = Sum(scope=list(X.scope), children=[inner, S.rand_spn(rs, [int(v) for v in X.scope], 1, fam, 0.0, None, False, vk, cats)], weights=np.array([0.6, 0.4], dtype=np.float32))
+        if isinstance(root, Sum):
+            root = Sum(scope=list(root.scope), children=list(root.children) + [mid] if set(mid.scope) == set(root.scope) else list(root.children),
+                       weights=None)
+            w = rs.dirichlet(np.ones(len(root.children))).astype(np.float32)
+            root.weights = w
+        ctx.count('nets-with-a-node-shared-across-depths')
+    if k % 4 == 1:
+        # Categorical leaves whose categories are a permutation of 0..K-1 (the table is stored in category order, not value order)
+        for n in S.bfs_order(root):
+            if isinstance(n, Categorical):
+                perm = rs.permutation(len(n.categories))
+                n.__init__(n.scope[0], categories=[int(c) for c in np.asarray(n.categories)[perm]], probabilities=np.asarray(n.probabilities)[perm].tolist())
+                ctx.count('categorical-leaves-with-permuted-categories')
     assign_ids(root)
     table0, order, index, _ = S.export_net(root)
     dom = S.domain_of(order)
